@@ -44,6 +44,19 @@ def runLine (line : String) : Driver.Result :=
     else if impl.startsWith "panic" then ⟨"P", s!"faultaccept {line} cut={cut}: {impl} violates C16: key=panic"⟩
     else ⟨"S", ""⟩
   | ["mapto", _, op, row, target, ext, impl] => Driver.MapToCase.runMapTo op row target ext impl
+  | ["numtext", _, text, exported, marshalled] =>
+    -- C12: a valid JSON number held as TEXT by an untyped Numeric column is exported as that literal (a json.Number)
+    -- and marshalled as it is: no digit is lost on the way (the model: ToNumber of a string validates and keeps it)
+    (match Jl.Driver.Line.unhexTok text with
+     | none => ⟨"B", "numtext: bad text"⟩
+     | some t =>
+       let want := (Dyn.num t).show
+       if !JsonWrite.isValidNumber t then ⟨"S", ""⟩
+       else if exported != want then
+         ⟨"P", s!"numtext {text}: exported [{exported}] marshalled [{marshalled}] violates C12: key=numeric-text-not-exported-verbatim"⟩
+       else if marshalled != text then
+         ⟨"P", s!"numtext {text}: exported [{exported}] marshalled [{marshalled}] violates C12: key=numeric-text-not-written-verbatim"⟩
+       else ⟨"S", ""⟩)
   | ["tfamily", _, ops, obs] => Driver.AliasCase.runFamily ops obs
   | ["overlong", _, size, tail, impl] =>
     -- C16: the bytes of a line that could not be delivered (longer than the importer's limit) are not lines of the
